@@ -81,10 +81,10 @@ type Config struct {
 type ObsKind int
 
 const (
-	ObsMessage  ObsKind = iota // OnMessage(type, payload)
-	ObsPongRecv                // pong handler(payload)
-	ObsFrameOut                // nbio wrote this frame
-	ObsCloseRecv               // close handler(code, reason): Type = code, Data = reason
+	ObsMessage   ObsKind = iota // OnMessage(type, payload)
+	ObsPongRecv                 // pong handler(payload)
+	ObsFrameOut                 // nbio wrote this frame
+	ObsCloseRecv                // close handler(code, reason): Type = code, Data = reason
 )
 
 // Obs is one observation, in order of occurrence.
